@@ -35,6 +35,7 @@ theorem verdict : (classify Generated.factsC01).Sound (Holds (cfgOf Generated.fa
 #print axioms Hv.Storage.insert_update_equivalent
 #print axioms Hv.Storage.chronWrite_eq_runOps
 #print axioms not_holds_of_silentDrop
+#print axioms not_holds_of_apiAcceptsLongName
 #print axioms inserts_roundtrip
 #print axioms classify_sound
 
